@@ -350,6 +350,7 @@ func runWorkflowJob(job *Job, res *Result) {
 		deadline = time.Now().Add(time.Duration(job.Budget * float64(time.Second)))
 	}
 	sites := map[string]vs.MapSite{}
+	nexec := 0
 	visit := func(s *vs.Sched) bool {
 		o := r.observe(s)
 		if strings.Contains(o.Outcome, "replay divergence") || strings.Contains(o.Outcome, "panic:vs:") || strings.HasPrefix(o.Outcome, "unsupported:") {
@@ -358,6 +359,10 @@ func runWorkflowJob(job *Job, res *Result) {
 		}
 		key := outcomeKey(o)
 		res.Outcomes[key]++
+		nexec++
+		if job.Race && len(vs.Races) > 0 && res.Extra["first_race_at_execution"] == 0 {
+			res.Extra["first_race_at_execution"] = nexec
+		}
 		r.orders[strings.Join(o.Events, ";")] = true
 		for _, ms := range s.MapSites() {
 			sites[ms.ID] = ms
@@ -406,6 +411,27 @@ func runWorkflowJob(job *Job, res *Result) {
 	}
 	if job.Race {
 		res.Races = vs.Races
+		keys := []string{}
+		for k := range vs.Races {
+			keys = append(keys, k)
+		}
+		sort.Strings(keys)
+		for _, k := range keys {
+			v := Violation{Prop: "C12", Class: "data-race", Detail: fmt.Sprintf("unsynchronised conflicting accesses %s (seen in %d executions of %s)", k, vs.Races[k], res.Scenario), Signature: "race|" + k, Job: job.ID}
+			if job.ReplayDir != "" {
+				os.MkdirAll(job.ReplayDir, 0777)
+				j := *job
+				j.Mode = "replay"
+				j.Replay = vs.RaceInfo[k]
+				j.Base = ""
+				j.Budget = 0
+				fn := filepath.Join(job.ReplayDir, fmt.Sprintf("%s-%x.json", sanitize(job.ID), hash32(v.Signature)))
+				b, _ := json.MarshalIndent(map[string]interface{}{"job": j, "violation": v}, "", " ")
+				os.WriteFile(fn, b, 0644)
+				v.Replay = fn
+			}
+			res.Violations = append(res.Violations, v)
+		}
 	}
 	// oracles over the whole exploration
 	r.checkExploration()
